@@ -95,6 +95,22 @@ def decorate(draw, xml: str):
             if m:
                 xml = xml[:m.end()] + sdgs() + xml[m.end():]
                 feats.append("deco:sdg:" + tag)
+    # descriptions with external documents (inserted directly behind LONG-NAME, i.e. in front of any SDGS)
+    for tag in SDG_TARGETS:
+        if draw(st.integers(0, 9)) < 2:
+            pat = re.compile(r"(<" + re.escape(tag) + r"(?: [^>]*)?>(?:<SHORT-NAME>[^<]*</SHORT-NAME>)(?:<LONG-NAME>[^<]*</LONG-NAME>)?)")
+            m = pat.search(xml)
+            if m:
+                ti = draw(st.sampled_from(["", ' TI="ti.1"', ' TI="a&amp;b"']))
+                eds = draw(st.sampled_from([
+                    "",
+                    '<EXTERNAL-DOCS><EXTERNAL-DOC HREF="http://h/?a=1&amp;b=2">see &lt;here&gt; &amp; there</EXTERNAL-DOC></EXTERNAL-DOCS>',
+                    '<EXTERNAL-DOCS><EXTERNAL-DOC HREF="plain.pdf"/><EXTERNAL-DOC HREF="x&quot;y">two</EXTERNAL-DOC></EXTERNAL-DOCS>']))
+                body = draw(st.sampled_from(["<p>Hello &amp; bye</p>", "plain text", "<p>a</p>\n<p>b &lt; c</p>"]))
+                xml = xml[:m.end()] + f"<DESC{ti}>{body}{eds}</DESC>" + xml[m.end():]
+                feats.append("deco:desc")
+                if eds:
+                    feats.append("deco:external-docs")
     if draw(st.integers(0, 9)) < 4 and '<SHORT-NAME>sid</SHORT-NAME>' in xml and "</DIAG-SERVICE>" in xml:
         mask = draw(st.sampled_from(["80", "01", "0100", "FF"]))
         xml = xml.replace("</DIAG-SERVICE>", f'<POS-RESPONSE-SUPPRESSABLE><BIT-MASK>{mask}</BIT-MASK>'
